@@ -289,6 +289,16 @@ async fn proxy_tcp_connection_with_synack_internal(
     // Default 15s timeout for DNS resolution + TCP handshake
     // This prevents hanging on slow/unreachable targets
     let connect_timeout = Duration::from_secs(15);
+    #[cfg(anytls_verif)]
+    crate::verif::emit(
+        "dial",
+        vec![
+            ("sid", stream_id.to_string()),
+            ("addr", target_socket.to_string()),
+            ("host", destination.addr.clone()),
+            ("port", destination.port.to_string()),
+        ],
+    );
     let outbound = match timeout(connect_timeout, TcpStream::connect(target_socket)).await {
         Ok(Ok(conn)) => {
             configure_tcp_stream(&conn, &target_display);
